@@ -162,9 +162,13 @@ class TrinoParser(PrestoParser):
 
         this = tail = parse_branch()
         while self._prev.text.upper() == "ELSEIF":
+            index = self._index
             node = parse_branch()
             tail.set("false", node)
             tail = node
+            if self._index == index:
+                # nothing was consumed (truncated or malformed body): _prev would stay ELSEIF forever
+                break
 
         if self._prev.text.upper() == "ELSE":
             tail.set(
@@ -190,7 +194,10 @@ class TrinoParser(PrestoParser):
         ifs = []
         self._match_text_seq("WHEN")
         while self._prev.text.upper() == "WHEN":
+            index = self._index
             ifs.append(parse_branch())
+            if self._index == index:
+                break
 
         default = None
         if self._prev.text.upper() == "ELSE":
